@@ -177,15 +177,13 @@ impl Clone for TransitionCycle {
         forall|i: int| 0 <= i < r@.len() ==> self.end_depot_nodes@.contains(#[trigger] r@[i]),
 //@end
 /// A-stub: Transition::new_fast (= Transition::one_cluster_per_maintenance) is NOT under contract anywhere: the result is
-/// an uninterpreted function of the arguments.  Precondition from the body (`tours.get(vehicle_id).unwrap()`);
-/// magnitude (assumed): the violation is at most 2^41 per listed vehicle, as for a transition consistent with the tours
+/// an uninterpreted function of the arguments.  Precondition from the body (`tours.get(vehicle_id).unwrap()`)
 //@item solution/src/transition.rs Transition::new_fast : trusted
 //@retname r
 //@sig
     requires forall|j: int| 0 <= j < vehicles@.len() ==> tours@.contains_key(#[trigger] vehicles@[j]),
     ensures
         r == spec_new_fast(vehicles@, tours@, *network),
-        0 <= r.total_maintenance_violation <= vehicles@.len() * vehicle_bound(),
 //@end
 
 // =====================================================================================================
@@ -216,9 +214,9 @@ impl Clone for TransitionCycle {
                 0 <= it.index@ <= list.len(),
                 list == vehicle_types@, ids == vehicle_ids_grouped_by_type@,
                 self.rc_pre(trs0, mv0, ids, tours@, list),
-                self.rc_inv(trs0, transitions@, ids, tours@, list, it.index@ as int),
+                self.rc_inv(trs0, transitions@, ids, tours@, list, it.index@ as int), // @obl C09.recompute_transitions.listed_types_rebuilt_others_untouched
                 forall|vt: VehicleTypeIdx| type_done(list, it.index@ as int, vt) ==> Schedule::rebuilt_small(ids, tours@, *self.network, vt),
-                *maintenance_violation == viol_sum(transitions@, sched_types(self)),
+                *maintenance_violation == viol_sum(transitions@, sched_types(self)), // @obl C09.recompute_transitions.violation_sum
 //@before "let vehicle_ids"
             let ghost k = it.index@ as int;
             let ghost trs_k = transitions@;
@@ -296,8 +294,10 @@ impl Clone for TransitionCycle {
 //@sig
     requires
         self.dp_ok(),
-        // the rotation cycles of all vehicle types are recomputed: what that needs of the schedule (see rc_pre)
-        self.rc_pre(self.next_period_transitions@, self.maintenance_violation as int, self.vehicle_ids_grouped_and_sorted@, self.tours@, sched_types(self)),
+        // the rotation cycles of all vehicle types are recomputed: what that needs of the schedule (see rc_base)
+        self.rc_base(self.next_period_transitions@, self.maintenance_violation as int, self.vehicle_ids_grouped_and_sorted@, self.tours@, sched_types(self)),
+        // A-counter (magnitude): whatever tours result, the rebuilt transitions' violations are at most 2^41 per vehicle
+        forall|t: Map<VehicleIdx, Tour>| #[trigger] self.all_end_reassigned(t) ==> self.rebuilt_all_small(t),
     ensures
         // Err iff no end depot is found for some vehicle: there is a vehicle and the network has no end depot node
         r is Err <==> sched_vehicles(self).len() > 0 && self.network.end_depot_nodes@.len() == 0, // @obl C13.reassign_end_depots_greedily.err_iff_no_end_depot
@@ -371,7 +371,7 @@ impl Clone for TransitionCycle {
             let ghost du_before = depot_usage@;
 //@before "self.update_depot_usage"
             proof {
-                assert(tours@ == tours_before.insert(vehicle_id, nt));
+                assert(tours@ == tours_before.insert(vehicle_id, nt)); // @obl C13.reassign_end_depots_greedily.no_activity_changes
                 assert(tour_of_net(&self.network, &nt));
                 assert(usage_exact_for(du_before, &self.network, self.vehicles@, tours_before, vehicle_id));
                 lemma_exact_for_same_tour(du_before, &self.network, self.vehicles@, tours_before, self.tours@, vehicle_id);
@@ -381,10 +381,10 @@ impl Clone for TransitionCycle {
                 lemma_usage_exact_step(du_before, depot_usage@, &self.network, self.vehicles@, tours_before, self.vehicles@, tours@, vehicle_id); // @obl C09.reassign_end_depots_greedily.depot_usage_exact
                 assert forall|j: int| 0 <= j < k implies tours_before[#[trigger] vs[j]] == tours@[vs[j]] by { assert(vs[j] != vs[k]); }
                 lemma_pre_costs_frame(tours_before, tours@, vs, k);
-                assert forall|j: int| 0 <= j < k + 1 implies self.end_reassigned(#[trigger] vs[j], tours@[vs[j]]) by {
+                assert forall|j: int| 0 <= j < k + 1 implies self.end_reassigned(#[trigger] vs[j], tours@[vs[j]]) by { // @obl C13.reassign_end_depots_greedily.no_activity_changes
                     if j < k { assert(vs[j] != vs[k]); }
                 }
-                assert forall|j: int| k + 1 <= j < vs.len() implies tours@[#[trigger] vs[j]] == self.tours@[vs[j]] by {
+                assert forall|j: int| k + 1 <= j < vs.len() implies tours@[#[trigger] vs[j]] == self.tours@[vs[j]] by { // @obl C13.reassign_end_depots_greedily.no_activity_changes
                     assert(vs[j] != vs[k]);
                 }
                 assert(tours@.dom() =~= self.tours@.dom());
@@ -398,7 +398,9 @@ impl Clone for TransitionCycle {
                 assert(self.end_reassigned(vs[j], tours@[vs[j]]));
             }
             // the new tours have the keys of the old ones: every listed id still has a tour
-            assert forall|v: VehicleIdx| self.tours@.contains_key(v) <==> tours@.contains_key(v) by {}
+            lemma_rc_base_same_keys(self, self.tours@, tours@, sched_types(self));
+            assert(self.all_end_reassigned(tours@));
+            assert(self.rebuilt_all_small(tours@));
         }
 //@end
 
@@ -494,6 +496,8 @@ impl Clone for TransitionCycle {
         // C13 "depot-only operations change no activity": only the start and / or the end depot node may differ
         depots_replaced(&self.network, tour, &r), // @obl C13.improve_depots_of_tour.no_activity_changes
         same_activities(tour, &r), // @obl C13.improve_depots_of_tour.no_activity_changes
+        // C09 (magnitude): only the first and the last leg change, so the costs change by at most two legs' costs
+        -2 * leg_cost_bound() <= r.costs - tour.costs <= 2 * leg_cost_bound(), // @obl C09.improve_depots_of_tour.costs_change_by_two_legs_at_most
 //@first
         proof {
             assert forall|q: Option<NodeIdx>| is_first_non_depot(tour, q) implies q == Some(tour.nodes@[1]) by { lemma_first_non_depot(tour, q); }
@@ -508,6 +512,7 @@ impl Clone for TransitionCycle {
         let ghost it0 = intermediate_tour;
         proof {
             assert(it0.nodes@ =~= tour.nodes@.update(0, sp_start_depot(&it0)));
+            if new_start_depot != sp_start_depot(tour) { lemma_start_depot_costs(tour, &it0, new_start_depot); }
             assert forall|q: Option<NodeIdx>| is_last_non_depot(&it0, q) implies q == Some(it0.nodes@[it0.len() - 2]) by { lemma_last_non_depot(&it0, q); }
         }
 //@after "let new_end_depot"
@@ -522,6 +527,239 @@ impl Clone for TransitionCycle {
                 assert(t.nodes@ =~= tour.nodes@.update(0, sp_start_depot(&t)).update(n - 1, sp_end_depot(&t)));
             }
             assert(it0.nodes@ =~= it0.nodes@.update(n - 1, sp_end_depot(&it0)));
+            assert forall|t: Tour| t.nodes@ == it0.nodes@.update(n - 1, new_end_depot) && t.network == it0.network && t.caches_ok() implies
+                -leg_cost_bound() <= #[trigger] t.costs - it0.costs <= leg_cost_bound() by {
+                lemma_end_depot_costs(&it0, &t, new_end_depot);
+            }
+        }
+//@end
+
+// ---- more stubs / small functions for improve_depots -----------------------------------------------------------------
+// verified in slice sched_guard; contract text copied from there
+//@item solution/src/schedule.rs Schedule::vehicle_type_of : trusted
+//@retname r
+//@sig
+    ensures
+        self.vehicles@.contains_key(vehicle) ==> r == Ok::<VehicleTypeIdx, String>(self.type_of(vehicle)),
+        !self.vehicles@.contains_key(vehicle) ==> r is Err,
+//@end
+// verified here (verbatim bodies); contract text as in slices/depot_usage.vs
+//@item model/src/network/nodes.rs DepotNode::depot_idx
+//@retname r
+//@sig
+    ensures r == self.depot_idx,
+//@end
+//@item model/src/network/nodes.rs Node::as_depot
+//@retname r
+//@sig
+    requires self.sp_is_depot(),
+    ensures *r == (match *self { Node::StartDepot((_, d)) => d, Node::EndDepot((_, d)) => d, _ => arbitrary() }),
+//@end
+//@item model/src/network.rs Network::get_depot_idx
+//@retname r
+//@sig
+    requires self.has(node_idx), self.sp_node(node_idx).sp_is_depot(),
+    ensures r == sp_depot_idx_of(self, node_idx),
+//@end
+// verified in slice sched_guard; contract text copied from there
+//@item solution/src/schedule/modifications.rs Schedule::update_transitions_and_violation_fast : trusted
+//@sig
+    requires
+        // the old schedule is consistent (C15, C10, C09), no real vehicle is listed twice, every listed real
+        // vehicle is an old and / or a new vehicle with an admissible new tour, magnitudes: see upd_pre
+        self.upd_pre(old(transitions)@, *old(maintenance_violation) as int, changed_vehicles@, vehicles@, tours@),
+        // (clause of upd_pre, repeated: the caller-side assumption the transition slice names) no real vehicle
+        // is listed twice: update_vehicle / remove_vehicle read the previous tour of the vehicle from self.tours
+        forall|i: int, j: int| 0 <= i < j < changed_vehicles@.len() && changed_vehicles@[i] is Vehicle
+            ==> #[trigger] changed_vehicles@[i] != #[trigger] changed_vehicles@[j],
+    ensures
+        forall|vt: VehicleTypeIdx| old(transitions)@.contains_key(vt) <==> #[trigger] final(transitions)@.contains_key(vt),
+        // C15 / C10: every transition is consistent with the NEW tours ...
+        forall|vt: VehicleTypeIdx| #[trigger] final(transitions)@.contains_key(vt) ==> final(transitions)@[vt].wf(&self.network, tours@), // @obl C10.update_transitions.consistent_with_new_tours
+        // ... and its cycles hold exactly the NEW vehicles of its type ("every real vehicle belongs to
+        // exactly one rotation cycle of its type": one cycle by wf_cycles / wf_lookup)
+        forall|vt: VehicleTypeIdx, v: VehicleIdx| #![trigger final(transitions)@[vt].has_vehicle(v)] final(transitions)@.contains_key(vt)
+            ==> (final(transitions)@[vt].has_vehicle(v) <==> (vehicles@.contains_key(v) && vtype(vehicles@[v]) == vt)), // @obl C10.update_transitions.membership
+        // C09: "the schedule's maintenance violation equals its from-scratch value"
+        *final(maintenance_violation) == viol_sum(final(transitions)@, sched_types(self)), // @obl C09.update_transitions.violation_sum
+        // the transitions of the other types are untouched
+        forall|vt: VehicleTypeIdx| #[trigger] final(transitions)@.contains_key(vt) && !self.touches_type(vehicles@, changed_vehicles@, vt)
+            ==> final(transitions)@[vt] == old(transitions)@[vt], // @obl C10.update_transitions.other_types_untouched
+//@end
+
+// "Improves the depots of all vehicles given in vehicles.  If None the depots of all vehicles are improved.  Assumes that
+// vehicle are real vehicle in schedule.  Panics if a vehicle is not a real vehicle."
+//@item solution/src/schedule/modifications.rs Schedule::improve_depots
+//@retname r
+//@sig
+    requires
+        self.dp_ok(),
+        // the network has an end depot (`find_best_end_depot_for_despawning(..).unwrap()` in improve_depots_of_tour)
+        self.network.end_depot_nodes@.len() > 0,
+        // Some(list): the listed vehicles are vehicles of the schedule, none is listed twice; what the incremental update of
+        // the rotation cycles needs (dp_transitions_ok; A-counter: dp_counter_ok)
+        vehicles is Some ==> self.listed_ok(vehicles->Some_0@) && self.dp_transitions_ok(vehicles->Some_0@.len() as int)
+            && forall|i: int| 0 <= i < vehicles->Some_0@.len() ==> self.dp_counter_ok(#[trigger] vehicles->Some_0@[i]),
+        // None: what the recomputation of the rotation cycles of all types needs (rc_base; A-counter (magnitude): whatever
+        // tours result, the rebuilt transitions' violations are at most 2^41 per vehicle)
+        vehicles is None ==> self.rc_base(self.next_period_transitions@, self.maintenance_violation as int, self.vehicle_ids_grouped_and_sorted@, self.tours@, sched_types(self))
+            && forall|t: Map<VehicleIdx, Tour>| #[trigger] self.all_depots_improved(sched_vehicles(self), t) ==> self.rebuilt_all_small(t),
+    ensures
+        // C13 "depot-only operations change no activity, and all other vehicles' tours ... stay untouched"
+        forall|v: VehicleIdx| #[trigger] self.tours@.contains_key(v) ==>
+            self.depots_improved(if vehicles is Some { vehicles->Some_0@ } else { sched_vehicles(self) }, v, r.tours@[v]), // @obl C13.improve_depots.no_activity_changes
+        r.tours@.dom() == self.tours@.dom()
+            && r.dummy_tours@ == self.dummy_tours@ && r.vehicles@ == self.vehicles@ && r.train_formations@ == self.train_formations@
+            && r.vehicle_ids_grouped_and_sorted@ == self.vehicle_ids_grouped_and_sorted@ && r.dummy_ids_sorted@ == self.dummy_ids_sorted@
+            && r.vehicle_counter == self.vehicle_counter && r.unserved_passengers == self.unserved_passengers && r.network == self.network, // @obl C13.improve_depots.everything_else_untouched
+        // C09: the schedule's costs follow the costs of the touched vehicles' tours
+        r.costs - tours_costs(r.tours@, if vehicles is Some { vehicles->Some_0@ } else { sched_vehicles(self) })
+            == self.costs - tours_costs(self.tours@, if vehicles is Some { vehicles->Some_0@ } else { sched_vehicles(self) }), // @obl C09.improve_depots.costs_follow_tours
+        // C09: the depot usage table has its from-scratch value for the new tours
+        usage_exact(r.depot_usage@, &self.network, r.vehicles@, r.tours@), // @obl C09.improve_depots.depot_usage_exact
+        // C09 / C10, rotation cycles.  None: the transitions of all types are rebuilt from the new tours (postcondition of
+        // recompute_transitions_and_violation_fast); Some(list): the postcondition of update_transitions_and_violation_fast
+        vehicles is None ==> self.rc_post(self.next_period_transitions@, r.next_period_transitions@, self.vehicle_ids_grouped_and_sorted@, r.tours@, sched_types(self))
+            && r.maintenance_violation == viol_sum(r.next_period_transitions@, sched_types(self)), // @obl C09.improve_depots.transitions_recomputed
+        vehicles is Some ==> self.upd_post(self.next_period_transitions@, r.next_period_transitions@, r.maintenance_violation as int, vehicles->Some_0@, self.vehicles@, r.tours@), // @obl C09.improve_depots.transitions_updated
+//@closure unwrap_or_else#0
+    -> (q: Vec<VehicleIdx>) ensures q@ == sched_vehicles(self)
+//@after "let vehicle_ids"
+        let ghost ids = vehicle_ids@;
+        let ghost du0 = self.depot_usage@;
+        proof {
+            assert(ids == (if vehicles is Some { vehicles->Some_0@ } else { sched_vehicles(self) }));
+            assert(self.listed_ok(ids)) by {
+                if vehicles is None {
+                    assert forall|i: int| 0 <= i < ids.len() implies self.tours@.contains_key(#[trigger] ids[i]) by { assert(ids.contains(ids[i])); }
+                }
+            }
+            assert forall|x: VehicleIdx| !done(ids, 0, x) by {}
+        }
+//@loop "for vehicle_id in vehicle_ids.iter() { let vehicle_type_id"
+            invariant
+                self.dp_ok(), self.listed_ok(ids), ids == vehicle_ids@, du0 == self.depot_usage@,
+                it.snapshot@.remaining().len() == ids.len(),
+                forall|j: int| 0 <= j < ids.len() ==> *(#[trigger] it.snapshot@.remaining()[j]) == ids[j],
+                0 <= it.index@ <= ids.len(),
+                usage_minus(du0, depot_usage@, ids, it.index@ as int, it.index@ as int), // @obl C09.improve_depots.depot_usage_exact
+//@before "let old_tour"
+            let ghost k = it.index@ as int;
+            let ghost du_a = depot_usage@;
+            proof {
+                assert(*vehicle_id == ids[k]);
+                assert(self.tours@.contains_key(ids[k]));
+                assert(self.dp_vehicle_ok(ids[k]));
+            }
+//@before "depot_usage .get_mut(&( self.network.get_depot_idx(old_tour.start_depot"
+            proof {
+                lemma_tour_depots(&self.network, old_tour);
+                lemma_rm_spawn_pre(self, du_a, ids, k);
+            }
+//@before "depot_usage .get_mut(&( self.network.get_depot_idx(old_tour.end_depot"
+            let ghost du_b = depot_usage@;
+            proof {
+                lemma_rm_spawn_post(self, du_a, du_b, ids, k); // @obl C09.improve_depots.depot_usage_exact
+                lemma_rm_despawn_pre(self, du_b, ids, k);
+            }
+//@after "depot_usage .get_mut(&( self.network.get_depot_idx(old_tour.end_depot"
+            proof {
+                lemma_rm_despawn_post(self, du_b, depot_usage@, ids, k); // @obl C09.improve_depots.depot_usage_exact
+            }
+//@before "for vehicle_id in vehicle_ids.iter() { let tour"
+        proof {
+            lemma_partial_init(self, depot_usage@, ids);
+            lemma_sub_costs(self.tours@, ids, sched_vehicles(self));
+        }
+//@loop "for vehicle_id in vehicle_ids.iter() { let tour"
+            invariant
+                self.dp_ok(), self.listed_ok(ids), ids == vehicle_ids@,
+                self.network.end_depot_nodes@.len() > 0,
+                pre_costs(self.tours@, ids, ids.len() as int) <= self.costs,
+                it.snapshot@.remaining().len() == ids.len(),
+                forall|j: int| 0 <= j < ids.len() ==> *(#[trigger] it.snapshot@.remaining()[j]) == ids[j],
+                0 <= it.index@ <= ids.len(),
+                tours@.dom() == self.tours@.dom(),
+                forall|j: int| 0 <= j < it.index@ ==> depots_replaced(&self.network, &self.tours@[#[trigger] ids[j]], &tours@[ids[j]]), // @obl C13.improve_depots.no_activity_changes
+                forall|j: int| it.index@ <= j < ids.len() ==> tours@[#[trigger] ids[j]] == self.tours@[ids[j]], // @obl C13.improve_depots.no_activity_changes
+                forall|v: VehicleIdx| !ids.contains(v) ==> #[trigger] tours@[v] == self.tours@[v], // @obl C13.improve_depots.no_activity_changes
+                costs == self.costs - pre_costs(self.tours@, ids, it.index@ as int) + pre_costs(tours@, ids, it.index@ as int), // @obl C09.improve_depots.costs_follow_tours
+                costs <= self.costs + it.index@ * (2 * leg_cost_bound()),
+                self.usage_partial(depot_usage@, tours@, ids, it.index@ as int), // @obl C09.improve_depots.depot_usage_exact
+//@before "let tour ="
+            let ghost k = it.index@ as int;
+            let ghost v = ids[k];
+            proof {
+                assert(*vehicle_id == ids[k]);
+                assert(self.tours@.contains_key(ids[k]));
+                assert(self.dp_vehicle_ok(v));
+                lemma_pre_costs_mono(self.tours@, ids, k + 1, ids.len() as int);
+                lemma_pre_costs_mono(self.tours@, ids, 0, k);
+                lemma_pre_costs_mono(tours@, ids, 0, k);
+            }
+//@before "costs ="
+            let ghost nt = new_tour;
+            proof {
+                let l2 = 2 * leg_cost_bound();
+                assert((k + 1) * l2 == k * l2 + l2) by (nonlinear_arith);
+                assert(0 <= k * l2 <= max_vehicles() * l2) by (nonlinear_arith)
+                    requires 0 <= k <= max_vehicles(), l2 >= 0;
+            }
+//@before "depot_usage .entry(( self.network.get_depot_idx(new_tour.start_depot"
+            let ghost du_a = depot_usage@;
+            let ghost key_s = (sp_depot_idx_of(&self.network, sp_start_depot(&nt)), self.type_of(v));
+            let ghost key_e = (sp_depot_idx_of(&self.network, sp_end_depot(&nt)), self.type_of(v));
+            proof {
+                assert(tour_of_net(&self.network, &nt));
+                lemma_tour_depots(&self.network, &nt);
+            }
+//@before "depot_usage .entry(( self.network.get_depot_idx(new_tour.end_depot"
+            let ghost du_b = depot_usage@;
+            proof {
+                lemma_add_spawn(du_a, du_b, key_s, v); // @obl C09.improve_depots.depot_usage_exact
+            }
+//@before "tours.insert"
+            let ghost du_c = depot_usage@;
+            let ghost tours_before = tours@;
+            proof {
+                lemma_add_despawn(du_b, du_c, key_e, v); // @obl C09.improve_depots.depot_usage_exact
+            }
+//@after "tours.insert"
+            proof {
+                lemma_partial_step(self, du_a, du_c, tours_before, ids, k, nt); // @obl C09.improve_depots.depot_usage_exact
+                assert(tours@ == tours_before.insert(v, nt)); // @obl C13.improve_depots.no_activity_changes
+                assert forall|j: int| 0 <= j < k implies tours_before[#[trigger] ids[j]] == tours@[ids[j]] by { assert(ids[j] != ids[k]); }
+                lemma_pre_costs_frame(tours_before, tours@, ids, k);
+                assert forall|j: int| 0 <= j < k + 1 implies depots_replaced(&self.network, &self.tours@[#[trigger] ids[j]], &tours@[ids[j]]) by { // @obl C13.improve_depots.no_activity_changes
+                    if j < k { assert(ids[j] != ids[k]); }
+                }
+                assert forall|j: int| k + 1 <= j < ids.len() implies tours@[#[trigger] ids[j]] == self.tours@[ids[j]] by { // @obl C13.improve_depots.no_activity_changes
+                    assert(ids[j] != ids[k]);
+                }
+                assert forall|u: VehicleIdx| !ids.contains(u) implies #[trigger] tours@[u] == self.tours@[u] by { // @obl C13.improve_depots.no_activity_changes
+                    assert(ids.contains(ids[k]));
+                }
+                assert(tours@.dom() =~= self.tours@.dom());
+            }
+//@before "if recompute_all"
+        proof {
+            lemma_partial_finish(self, depot_usage@, tours@, ids); // @obl C09.improve_depots.depot_usage_exact
+            assert forall|u: VehicleIdx| #[trigger] self.tours@.contains_key(u) implies self.depots_improved(ids, u, tours@[u]) by {
+                if ids.contains(u) {
+                    let j = choose|j: int| 0 <= j < ids.len() && ids[j] == u;
+                    assert(depots_replaced(&self.network, &self.tours@[ids[j]], &tours@[ids[j]]));
+                    assert(self.dp_vehicle_ok(u));
+                    lemma_replaced_same_activities(&self.network, &self.tours@[u], &tours@[u]);
+                }
+            }
+            if vehicles is Some {
+                lemma_upd_pre_listed(self, ids, tours@); // @obl C09.improve_depots.transitions_updated
+            } else {
+                // the new tours have the keys of the old ones: every listed id still has a tour
+                lemma_rc_base_same_keys(self, self.tours@, tours@, sched_types(self));
+                assert(self.all_depots_improved(sched_vehicles(self), tours@));
+                assert(self.rebuilt_all_small(tours@));
+            }
         }
 //@end
 
